@@ -11,6 +11,7 @@ import (
 	"fmt"
 	"os"
 	"strings"
+	"sync"
 
 	"cuelang.org/go/internal/verifharness/common"
 )
@@ -128,15 +129,42 @@ func main() {
 		}
 	}
 	nuni := common.Atoi(a["--nuni"], 100)
-	for i := 0; i < nuni; i++ {
-		u := genUniverse(rng.Fork())
-		line := u.String()
-		out.Emit(line, runCase(line, rng, reps))
-	}
 	nmf := common.Atoi(a["--nmf"], 100)
-	for i := 0; i < nmf; i++ {
-		line := genModfileCase(rng.Fork())
-		out.Emit(line, runCase(line, rng, reps))
+	workers := common.Atoi(a["--workers"], 8)
+	// every case has its own PRNG streams, fixed before any work starts, so the
+	// output does not depend on how the workers are scheduled
+	type job struct {
+		gen, run *common.Rng
+		line, res string
+	}
+	jobs := make([]job, nuni+nmf)
+	for i := range jobs {
+		jobs[i].gen, jobs[i].run = rng.Fork(), rng.Fork()
+	}
+	var wg sync.WaitGroup
+	next := make(chan int)
+	for w := 0; w < workers; w++ {
+		wg.Add(1)
+		go func() {
+			defer wg.Done()
+			for i := range next {
+				j := &jobs[i]
+				if i < nuni {
+					j.line = genUniverse(j.gen).String()
+				} else {
+					j.line = genModfileCase(j.gen)
+				}
+				j.res = runCase(j.line, j.run, reps)
+			}
+		}()
+	}
+	for i := range jobs {
+		next <- i
+	}
+	close(next)
+	wg.Wait()
+	for i := range jobs {
+		out.Emit(jobs[i].line, jobs[i].res)
 	}
 }
 
